@@ -145,8 +145,12 @@ CHECKS = {
              "selectors {refused, timeout, peer close, HTTP 4xx, wrong pairing id marking / not marking the address, bad signature, "
              "authentication error, unexpected exception, success} x host lists of 1..3 x wake-up / close-request flags, checked "
              "against the back-off law, the immediate-retry rule and the termination rule; (c) connector guards from an arbitrary "
-             "flag state; (d) _get_connect_hosts over every exclusion subset. NOT decided: single-connector under truly concurrent "
-             "triggers, ensure_connection's shield and the caller's bounded wait (need a running loop).",
+             "flag state; (d) _get_connect_hosts over every exclusion subset; (e) the waiting caller, hand-driven: "
+             "IpPairing._ensure_connected / ensure_connection with loop-free stand-ins for shield, asyncio.timeout and the connector "
+             "task: the caller waits on a shielded future, a caller that is cancelled or times out gets CancelledError / "
+             "AccessoryDisconnectedError (naming the connector's last error) and the connector is not cancelled, a connector that "
+             "connects / returns unconnected / fails with an authentication error gives the caller that answer. NOT decided: "
+             "single-connector under truly concurrent triggers, happy-eyeballs, wall-clock behaviour (need a running loop).",
         note="In (b)-(d) all symbolic variables are discrete selectors: the guarantee equals bounded exhaustive exploration of fault "
              "histories of the real coroutine; _connect_once, asyncio.sleep, interrupt, create_future, async_create_task are stubs.",
         design="DESIGN.md section 5 C10"),
@@ -154,7 +158,7 @@ CHECKS = {
         text="PARTIAL: the real secure/insecure _connect_once (from the point where the socket exists), post_tlv/post/request, the "
              "protocol's _send_lines/data_received/connection_made/connection_lost, HttpResponse, _drop_transport, close, "
              "_stop_connector and _connection_lost run against a harness-side network model for every history of K (quick 2, "
-             "thorough 3) connection attempts x 10 set-up outcomes, one peer close or late connection_lost of any connection made so "
+             "thorough: K=2 with all 13 and K=3 with 8 representative) connection attempts x 13 set-up outcomes, one peer close or late connection_lost of any connection made so "
              "far, and close() with the connector in each of 5 states: at most one open connection and it is the current one, none "
              "left after a failed set-up or close(), close() never raises, a stale loss does not disturb the current connection. "
              "NOT decided: real sockets/tasks, close() racing a running attempt.",
